@@ -12,7 +12,19 @@ pairs).  Observables, as the property names them:
   (b) outputs on Fraction signals versus composition of outputs (law vectors evaluated on the
       real objects and through the model);
   (c) ==, != and hash on pairs drawn equal / different in numerator only / denominator only / both;
-  (d) CascadeFilter / ParallelFilter: outputs and numpoly/denpoly against product / sum.
+  (d) CascadeFilter / ParallelFilter: outputs and numpoly/denpoly against product / sum;
+  (e) filter list OBJECTS (entry "nest"): nested mixed structures built through every constructor call shape
+      (K(*parts), K([parts]), K((parts)), K(generator), a lone filter list of either kind as the only part, user
+      subclasses) and through the `list` methods (+, *, reflected *, *=, append, extend, +=, slicing): classes and parts
+      of the result, len, output, numpoly/denpoly (as coded and with the repair of D22), is_linear, hash, and the
+      float-only freq_response against the denoted rational function on the unit circle;
+  (f) == / != matrices over pools of objects of every sort (entry "eqm"): filter lists of both kinds and of user
+      subclasses, plain lists, tuples, ZFilters, type-casted filters, LinearFilter objects, numbers, functions, in
+      both operand orders; hashability and equal hashes of equal objects;
+  (g) operand kinds / spellings of the dunders: scalars written as int / float / Fraction / bool on either side,
+      exponents written as int / bool / float / Fraction / complex, a LinearFilter that is not a ZFilter as right
+      operand, a ZFilter handed to a reflected dunder, ZFilter(filter) / ZFilter(filter, filter) /
+      ZFilter(filter, number) type casts; linearize() on fractional delays (entry "frac").
 """
 import json
 import operator
@@ -31,13 +43,26 @@ RULE = ("random expression trees (depth<=3 quick / <=4 thorough) over + - * / **
         "applied to a Fraction signal; law vectors on random triples (f,g,h,n,m,c,k,x); ==/!=/hash pairs drawn "
         "equal / numerator-only / denominator-only / both different; Cascade/Parallel lists of 0..4 filters incl. "
         "repeated denominators; non-trivial = the impl returned a filter, a law vector, a comparison or polynomials "
-        "(not an exception); distinct = distinct JSON case")
+        "(not an exception); distinct = distinct JSON case; filter list objects: nested structures of depth<=3 over "
+        "cascade/parallel/user subclasses (depth 1, 2) with 0..3 parts (ZFilters, numbers, sample-wise non-linear "
+        "callables, filter lists), constructor shapes star/list/tuple/generator, list methods add/mul/rmul/imul/append/"
+        "extend/iadd/slice incl. failing ones (tuple / ZFilter / number operands); ==/!= matrices over pools of 6..10 "
+        "objects drawn from 41 templates; scalars spelled int/float/Fraction/bool, exponents spelled "
+        "int/bool/float/Fraction/complex, foreign-domain operands, type casts; fractional (dyadic) delays for linearize")
 TRUSTED = [
     "hand-written Lean model ALV/Model/C05.lean of ZFilter / CascadeFilter / ParallelFilter arithmetic on top of "
     "the C07 Poly model and the C04 filter loop (modelled, not verified: Python's Fraction arithmetic as a field, "
     "OrderedDict as association list, `sum()` as a fold from ZFilter([0]))",
     "cross-multiplication, polynomial product and signal comparison of harness/props/c05.py (exact Fractions)",
     "hash: the model gives the tuple of sorted powers that LinearFilter.__hash__ hashes; CPython's hash() is trusted",
+    "hand-written Lean model ALV/Model/C05List.lean of FilterList objects (constructor rule on callable/iterable "
+    "arguments, metaclass dunders `cls(super().__add__(other))` incl. the wrapping by user subclasses, CPython's "
+    "list_richcompare for list.__eq__/__ne__, `obj *= n` dispatching to __mul__, unhashability of classes defining "
+    "__eq__) and ALV/Model/C05Lin.lean (exponent / scalar spellings, foreign-domain errors, linearize of fractional "
+    "delays with int() truncation toward zero): modelled, tied by the differential runs, not verified",
+    "non-linear parts are sample-wise functions (x*x, x+1) given to both sides by identity number; a polynomial whose "
+    "coefficients are not numbers (`zf + filter_list` = `zf + ZFilter([filter_list])`) is observed as the TypeError it "
+    "stands for; freq_response is compared in floats (1e-7 relative, skipped within 1e-6 of a pole)",
 ]
 ASSUMPTIONS = [
     "exact regime: Fraction coefficients, Poly zero=Fraction(0) on the leaves, Fraction signals, zero=Fraction(0); "
@@ -50,16 +75,26 @@ ASSUMPTIONS = [
     "loop exact on Fraction samples); outputs of single trees in the float regime are compared within "
     "1e-10 * (sum |impulse response of 1/den|) relative to the largest sample",
     "signal laws are stated for causal filters; a non-causal composite raises ValueError in the impl and in the model",
+    "outside the object model: coefficient lists / dicts as parts of a filter list, callables with memory, Stream "
+    "coefficients, complex scalars (the model's instance in the driver is Rat), <, <=, >, >= on filter lists, poles / "
+    "zeros / plot (numpy), non-dyadic fractional delays (float rounding)",
 ]
 MANIFEST = {
     "technique": "Lean 4 proof (ZFilter model interpreted into the fraction field of Mathlib's Laurent polynomial "
                  "ring K[T;T⁻¹] for the field laws / substitution / expression trees of any depth, and into K⟦X⟧ "
                  "via C04's A·Y = B·X with unit denominators for the signal laws) + differential tie on expression "
-                 "trees, law vectors, ==/!=/hash pairs and Cascade/Parallel lists in the exact Fraction regime",
-    "note": "48 theorems, no pending statement; D2 (__ne__ is `num != and den !=`) and D12 (ParallelFilter.denpoly "
-            "is the product while numpoly comes from the shortcut sum) recorded as known with "
-            "proposed_fixes/D2-filter-ne.diff and proposed_fixes/D12-parallel-denpoly.diff; both are stated in "
-            "Lean as theorems about the repaired shape plus a refutation of the shape as coded",
+                 "trees, law vectors, ==/!=/hash pairs, Cascade/Parallel lists, nested filter list objects (mutual "
+                 "inductive FL/FLs with joint induction: call = composition/sum, numpoly/denpoly = one causal filter "
+                 "denoting the product/sum at any depth), ==/!= matrices over mixed pools, operand spellings and "
+                 "fractional-delay linearisation, in the exact Fraction regime",
+    "note": "60 theorems, no pending statement; D2 (__ne__ is `num != and den !=`) and D12 (ParallelFilter.denpoly "
+            "is the product while numpoly comes from the shortcut sum) are repaired in /repo; D22 (ParallelFilter.numpoly/"
+            "denpoly run reduce(operator.add, self) on the raw elements: filter lists are concatenated, numbers stay "
+            "numbers) is recorded as known with proposed_fixes/D22-parallel-polys-of-lists.diff; each is stated in "
+            "Lean as theorems about the repaired shape plus a refutation of the shape as coded; filter lists are "
+            "modelled as objects (nested_call, nested_structure_denotes, constructor_rule, concat_denotes, "
+            "obj_eq_ne_exclusive, obj_eq_sound, obj_eq_hash) and tied through constructor call shapes, list methods "
+            "and ==/!= matrices",
 }
 
 warnings.filterwarnings("ignore", message="StreamTeeHub requesting")
@@ -75,7 +110,9 @@ SCAL_L = ("adds", "subs", "muls", "divs")
 BIN = ("add", "sub", "mul", "div")
 UN = ("neg", "pos")
 LEAVES = ("f", "fl", "z", "s")
-_ALLOPS = set(LEAVES + BIN + UN + SCAL_L + SCAL_R + ("pow", "subst"))
+EXTRA = ("dom", "rdom", "powk", "cast", "lfcast", "castdiv", "castdivs")
+_ALLOPS = set(LEAVES + BIN + UN + SCAL_L + SCAL_R + ("pow", "subst") + EXTRA)
+KINDS = ("int", "bool", "float", "fraction", "complex")
 
 
 # ----------------------------------------------------------------------------
@@ -204,9 +241,55 @@ def _same_den(rng, t, pool=COEFFS):
     return ["s", enc(_coeff(rng, pool))]
 
 
+def _spell(rng, c):
+    """a way to write the number c in Python (class (b): int / float / Fraction / bool)"""
+    c = dec(c)
+    ks = ["fraction"]
+    if c.denominator == 1:
+        ks += ["int", "int"]
+    if c.denominator & (c.denominator - 1) == 0:
+        ks += ["float"]
+    if c in (0, 1):
+        ks += ["bool", "bool"]
+    return rng.choice(ks)
+
+
+def _number(c, kind):
+    c = dec(c)
+    if kind == "int":
+        return int(c)
+    if kind == "float":
+        return float(c)
+    if kind == "bool":
+        return bool(c)
+    if kind == "complex":
+        return complex(c)
+    return c
+
+
+def _extra(rng, depth, causal, pool):
+    """operand kinds / call shapes of the arithmetic dunders and of the constructor beyond filter-op-filter"""
+    r = rng.random()
+    sub = lambda d=depth - 1: _tree(rng, max(d, 0), causal, pool)
+    if r < 0.2:
+        return [rng.choice(["dom", "dom", "rdom"]), rng.choice(BIN), sub(), sub(0)]
+    if r < 0.55:
+        kind = rng.choice(["bool", "float", "float", "fraction", "complex", "int"])
+        n = rng.choice([0, 1]) if kind == "bool" else rng.choice([0, 1, 2, 3, -1, -2] if not causal else [0, 1, 2])
+        base = _mono(rng, pool) if (not causal and rng.random() < 0.5) else sub(1)
+        return ["powk", base, n, kind]
+    if r < 0.75:
+        return ["cast", sub()]
+    if r < 0.9 and not causal:
+        return ["castdiv", sub(), sub(1)]
+    return ["castdivs", sub(), enc(_coeff(rng, pool, 0.1))]
+
+
 def _tree(rng, depth, causal=False, pool=COEFFS):
     if depth <= 0 or rng.random() < 0.18:
         return _leaf(rng, causal, pool)
+    if rng.random() < 0.09:
+        return _extra(rng, depth, causal, pool)
     r = rng.random()
     if r < 0.5:
         op = rng.choice(("add", "sub", "mul", "add", "sub", "mul", "div") if not causal else ("add", "sub", "mul"))
@@ -225,7 +308,8 @@ def _tree(rng, depth, causal=False, pool=COEFFS):
         op = rng.choice(ops)
         c = enc(_coeff(rng, pool, 0.08))
         sub = _tree(rng, depth - 1, causal, pool)
-        return [op, c, sub] if op.startswith("r") else [op, sub, c]
+        kind = _spell(rng, c)
+        return [op, c, sub, kind] if op.startswith("r") else [op, sub, c, kind]
     if r < 0.87:
         n = rng.choice([0, 1, 2, 2, 3, 4, -1, -1, -2, -3] if not causal else [0, 1, 2, 2, 3])
         base = _mono(rng, pool) if (not causal and rng.random() < 0.25) else _tree(rng, min(depth - 1, 1), causal, pool)
@@ -250,8 +334,18 @@ def _span(t):
         return 1, 0
     if op == "s":
         return 0, 0
-    if op in UN:
+    if op in UN or op in ("cast", "lfcast", "castdivs"):
         return _span(t[1])
+    if op in ("dom", "rdom"):
+        (a, b), (c, d) = _span(t[2]), _span(t[3])
+        return max(a + d, c + b), b + d
+    if op == "castdiv":
+        (a, b), (c, d) = _span(t[1]), _span(t[2])
+        return a + d, b + c
+    if op == "powk":
+        a, b = _span(t[1])
+        n = max(abs(t[2]), 1)
+        return max(a, b) * n, max(a, b) * n
     if op in SCAL_L or op in SCAL_R:
         n, d = _span(t[2] if op in SCAL_R else t[1])
         return (n + d, n + d) if op == "rdivs" else (max(n, d), d)
@@ -353,6 +447,195 @@ def _gen_list(rng, quick):
     return {"entry": "list", "kind": kind, "fs": fs, "xs": _signal(rng)}
 
 
+# ----------------------------------------------------------------------------
+# filter list objects: nested structures, constructor call shapes, list methods
+# ----------------------------------------------------------------------------
+SHAPES = ("star", "star", "star", "list", "tuple", "gen")
+_FL_CHILD = {"new", "add", "mul", "rmul", "append", "extend", "imul"}
+
+
+def _part_leaf(rng, pool, fn_p=0.05, num_p=0.1):
+    r = rng.random()
+    if r < fn_p:
+        return ["fn", rng.randint(0, 3)]
+    if r < fn_p + num_p:
+        return ["n", enc(rng.choice([F(0), F(1), F(2), F(-1), F(3), F(1, 2)]))]
+    for _ in range(20):
+        t = _leaf(rng, causal=rng.random() < 0.93, pool=pool)
+        # a zero filter next to a filter list in a parallel makes `zf + ZFilter([filter_list])` succeed with a filter list as
+        # a coefficient (no coefficient arithmetic happens): kept rare, see _garbage_possible
+        if rng.random() < 0.1 or (t[0] in ("f", "fl") and any(dec(v if not isinstance(v, list) else v[1]) != 0 for v in t[1])):
+            return ["zf", t]
+    return ["zf", ["fl", [1], [1]]]
+
+
+def _gen_node(rng, depth, pool, fn_p=0.05):
+    """a filter list expression: any mixture of kinds, 0 / 1 / many parts, every constructor call shape"""
+    par = rng.random() < 0.5
+    sub = rng.choice([0, 0, 0, 0, 0, 1, 1, 2])
+    n = rng.choice([0, 1, 1, 1, 2, 2, 2, 3])
+    parts = []
+    for _ in range(n):
+        if depth > 0 and rng.random() < 0.5:
+            parts.append(_gen_fl(rng, depth - 1, pool, fn_p))
+        else:
+            parts.append(_part_leaf(rng, pool, fn_p))
+    shape = rng.choice(SHAPES)
+    if shape == "star" and n == 1 and parts[0][0] in _FL_CHILD and rng.random() < 0.3:
+        pass                    # K(P): the lone filter list of whatever kind is ONE part
+    return ["new", par, sub, shape, parts]
+
+
+def _gen_fl(rng, depth, pool, fn_p=0.05):
+    """a filter list built by the constructor or by a `list` method of another one"""
+    r = rng.random()
+    if depth <= 0 or r < 0.62:
+        return _gen_node(rng, depth, pool, fn_p)
+    a = _gen_node(rng, depth - 1, pool, fn_p)
+    if r < 0.72:
+        b = _gen_node(rng, depth - 1, pool, fn_p) if rng.random() < 0.6 else \
+            ["plain", False, [_part_leaf(rng, pool, fn_p) for _ in range(rng.choice([0, 1, 2]))]]
+        return ["add", a, b]
+    if r < 0.79:
+        return [rng.choice(["mul", "rmul", "imul"]), a, rng.choice([0, 1, 2, 2, -1])] if rng.random() < 0.67 else \
+            ["rmul", rng.choice([0, 1, 2]), a]
+    if r < 0.87:
+        x = _gen_node(rng, depth - 1, pool, fn_p) if rng.random() < 0.5 else _part_leaf(rng, pool, fn_p)
+        return ["append", a, x]
+    if r < 0.95:
+        b = _gen_node(rng, depth - 1, pool, fn_p) if rng.random() < 0.5 else \
+            ["plain", rng.random() < 0.5, [_part_leaf(rng, pool, fn_p) for _ in range(rng.choice([0, 1, 2]))]]
+        return ["extend", a, b]
+    # a slice is a plain list: handed alone to a constructor it is unpacked again
+    n = rng.choice([0, 1, 2])
+    return ["new", rng.random() < 0.5, 0, "star", [["slice", a, rng.choice([0, 0, 1]), rng.choice([1, 2, 3])]]]
+
+
+def _fix_ops(t):
+    if t[0] == "rmul" and isinstance(t[1], list):
+        return ["rmul", t[2], t[1]]
+    return t
+
+
+def _norm_obj(t):
+    """rmul is written ["rmul", n, obj]"""
+    if not isinstance(t, list) or not t:
+        return t
+    t = _fix_ops(t)
+    op = t[0]
+    if op in ("zf", "n", "fn"):
+        return t
+    if op == "new":
+        return t[:4] + [[_norm_obj(x) for x in t[4]]]
+    if op == "plain":
+        return t[:2] + [[_norm_obj(x) for x in t[2]]]
+    if op == "rmul":
+        return ["rmul", t[1], _norm_obj(t[2])]
+    return [op] + [_norm_obj(x) if isinstance(x, list) else x for x in t[1:]]
+
+
+def _gen_nest(rng, quick):
+    pool = INTS if rng.random() < 0.8 else DYADIC
+    depth = rng.choice([0, 1, 1, 2, 2, 3])
+    r = rng.random()
+    if r < 0.08:
+        obj = ["slice", _gen_node(rng, 1, pool), rng.choice([0, 1]), rng.choice([1, 2, 3])]
+    elif r < 0.12:
+        obj = ["add", ["plain", False, [_part_leaf(rng, pool)]], _gen_node(rng, 1, pool)]
+    elif r < 0.16:
+        obj = ["add", _gen_node(rng, 1, pool), rng.choice([["plain", True, [_part_leaf(rng, pool)]], ["zf", _leaf(rng, True, pool)],
+                                                      ["n", 2]])]
+    else:
+        obj = _gen_fl(rng, depth, pool)
+    return {"entry": "nest", "obj": _norm_obj(obj), "xs": _signal(rng, rng.choice([0, 1, 3, 5]))}
+
+
+def _gen_eqm(rng):
+    """a pool of objects of every sort that can meet in a comparison; both operand orders are in the matrix"""
+    pool = INTS
+    f, g = _leaf(rng, True, pool), _leaf(rng, True, pool)
+    if rng.random() < 0.3:
+        g = _same_den(rng, f, pool) if f[0] in ("f", "fl") else g
+    zf = lambda t: ["zf", t]
+    new = lambda par, shape, parts, sub=0: ["new", par, sub, shape, parts]
+    cand = [
+        new(False, "star", [zf(f), zf(g)]), new(False, "list", [zf(f), zf(g)]), new(True, "star", [zf(f), zf(g)]),
+        new(True, "tuple", [zf(f), zf(g)]), new(False, "star", [zf(g), zf(f)]), new(False, "star", [zf(f)]),
+        new(True, "star", [zf(f)]), new(False, "star", []), new(True, "star", []), ["plain", False, [zf(f), zf(g)]],
+        ["plain", True, [zf(f), zf(g)]], ["plain", False, []], ["plain", True, [zf(f)]], zf(f), zf(g), zf(["cast", f]),
+        zf(["lfcast", f]), zf(["pos", f]), ["n", 1], ["n", 0], ["n", enc(rng.choice(INTS))], ["fn", 0], ["fn", 2],
+        new(False, "star", [["fn", 0]]), new(True, "star", [["fn", 0]]), new(False, "star", [["n", 1]]),
+        new(False, "star", [zf(f), zf(g)], 1), new(True, "star", [zf(f), zf(g)], 1), new(False, "star", [zf(f), zf(g)], 2),
+        new(False, "star", [new(True, "star", [zf(f), zf(g)])]), new(True, "star", [new(False, "star", [zf(f), zf(g)])]),
+        new(False, "list", [new(True, "star", [zf(f), zf(g)])]), new(True, "star", [new(True, "star", [zf(f), zf(g)])]),
+        ["add", new(False, "star", [zf(f)]), new(True, "star", [zf(g)])], ["add", new(True, "star", [zf(f)]), ["plain", False, [zf(g)]]],
+        ["mul", new(False, "star", [zf(f)]), 2], new(False, "star", [zf(f), zf(f)]),
+        ["extend", new(True, "star", [zf(f)]), ["plain", True, [zf(g)]]], ["slice", new(False, "star", [zf(f), zf(g)]), 0, 2],
+        _gen_node(rng, 1, pool), _gen_node(rng, 2, pool),
+    ]
+    k = rng.choice([6, 8, 10])
+    chosen = rng.sample(cand, k)
+    if rng.random() < 0.7:          # make sure a cascade and a parallel with the same parts meet
+        chosen[0], chosen[1] = cand[0], cand[2]
+    return {"entry": "eqm", "pool": [_norm_obj(x) for x in chosen]}
+
+
+def _gen_frac(rng):
+    """filters with fractional delays (dyadic, so that the floats are exact) and their linearisation"""
+    half = [F(1, 2), F(1, 4), F(3, 4), F(5, 4), F(9, 4), F(7, 2), F(17, 4), F(-1, 2), F(-5, 4), F(2), F(0), F(1), F(3), F(-1)]
+    if rng.random() < 0.25:
+        return {"entry": "frac", "via": "zpow", "e": enc(rng.choice([F(-17, 4), F(-1, 2), F(1, 2), F(-2), F(-9, 4), F(3, 4), F(5, 4)])),
+                "num": [], "den": [[0, 1]]}
+    ks = rng.sample(half, rng.choice([1, 2, 3]))
+    num = [[enc(k), enc(rng.choice(DYADIC))] for k in ks]
+    den = [[0, enc(rng.choice(UNITS))]] + [[k, enc(rng.choice(DYADIC))] for k in rng.sample([1, 2, 3], rng.choice([0, 1]))]
+    if rng.random() < 0.2:
+        den.append([enc(rng.choice([F(1, 2), F(5, 4), F(7, 2)])), enc(rng.choice(DYADIC))])
+    return {"entry": "frac", "via": rng.choice(["dict", "dict", "fraction-keys"]), "num": num, "den": den}
+
+
+def _fixed_objs():
+    f = ["zf", ["fl", [1, "1/2"], [1]]]
+    g = ["zf", ["fl", [2, 0, -1], [1, "-1/4"]]]
+    h = ["zf", ["fl", [0, 1], [1]]]
+    k = ["zf", ["fl", [1], [1, "1/2"]]]
+    xs = [1, -2, 3, 5, 0]
+    new = lambda par, shape, parts, sub=0: ["new", par, sub, shape, parts]
+    out = []
+    P, C = new(True, "star", [f, g]), new(False, "star", [f, g])
+    P2, C2 = new(True, "star", [h, k]), new(False, "star", [h, k])
+    for par in (False, True):
+        for inner in (P, C, new(True, "star", []), new(False, "star", []), f, ["n", 2], ["fn", 0]):
+            for shape in ("star", "list", "tuple", "gen"):
+                out.append({"entry": "nest", "obj": new(par, shape, [inner]), "xs": xs})
+            out.append({"entry": "nest", "obj": new(par, "star", [new(par, "star", [inner]), f]), "xs": xs})
+            out.append({"entry": "nest", "obj": new(par, "star", [inner], 1), "xs": xs})
+        for a in (P, C, f, ["n", 2]):
+            for b in (P2, C2, h, ["n", 3]):
+                out.append({"entry": "nest", "obj": new(par, "star", [a, b]), "xs": xs})
+        out.append({"entry": "nest", "obj": new(par, "star", []), "xs": xs})
+    for a in (P, C, new(False, "star", [f, g], 1), new(True, "star", [f, g], 2)):
+        for b in (P2, C2, ["plain", False, [h]], ["plain", True, [h]], h):
+            out.append({"entry": "nest", "obj": ["add", a, b], "xs": xs})
+        for n in (0, 1, 2, -1):
+            out.append({"entry": "nest", "obj": ["mul", a, n], "xs": xs})
+            out.append({"entry": "nest", "obj": ["rmul", n, a], "xs": xs})
+            out.append({"entry": "nest", "obj": ["imul", a, n], "xs": xs})
+        out.append({"entry": "nest", "obj": ["append", a, P2], "xs": xs})
+        out.append({"entry": "nest", "obj": ["extend", a, C2], "xs": xs})
+        out.append({"entry": "nest", "obj": ["extend", a, ["plain", True, [h, k]]], "xs": xs})
+        out.append({"entry": "nest", "obj": ["slice", a, 0, 1], "xs": xs})
+    pool = [C, new(False, "list", [f, g]), P, new(True, "gen", [f, g]), new(False, "star", [g, f]), new(False, "star", [f]),
+            new(True, "star", [f]), new(False, "star", []), new(True, "star", []), f, g, ["zf", ["cast", f[1]]],
+            ["zf", ["lfcast", f[1]]], ["plain", False, [f, g]], ["plain", True, [f, g]], ["n", 1], ["fn", 0],
+            new(False, "star", [f, g], 1), new(False, "star", [P]), new(True, "star", [C])]
+    out.append({"entry": "eqm", "pool": pool})
+    out.append({"entry": "frac", "via": "dict", "num": [["17/4", 1], ["-1/2", 2], [2, 3], [3, 1]], "den": [[0, 1], [1, "1/2"]]})
+    out.append({"entry": "frac", "via": "zpow", "e": "-17/4", "num": [], "den": [[0, 1]]})
+    out.append({"entry": "frac", "via": "zpow", "e": "1/2", "num": [], "den": [[0, 1]]})
+    return out
+
+
 def _fixed_cases():
     """small exhaustive universe: every operator on every pair of a fixed set of small filters"""
     base = [["z"], ["s", 0], ["s", 2], ["f", [[0, 1], [1, 1]], [[0, 1], [1, "-1/2"]]],
@@ -387,6 +670,22 @@ def _fixed_cases():
     out.append({"entry": "list", "kind": "parallel", "fs": [], "xs": xs})
     out.append({"entry": "tree", "tree": ["f", [[0, 1]], []], "xs": xs})          # empty denominator: ValueError
     out.append({"entry": "tree", "tree": ["f", [[0, 1]], [[0, 0]]], "xs": xs})
+    for a in base:
+        for op in BIN:
+            out.append({"entry": "tree", "tree": ["dom", op, a, base[3]], "xs": xs})
+            out.append({"entry": "tree", "tree": ["rdom", op, a, base[3]], "xs": xs})
+        for kind in KINDS:
+            for n in ((0, 1) if kind == "bool" else (-2, -1, 0, 1, 2)):
+                out.append({"entry": "tree", "tree": ["powk", a, n, kind], "xs": xs})
+        out.append({"entry": "tree", "tree": ["cast", a], "xs": xs})
+        out.append({"entry": "tree", "tree": ["castdiv", a, base[5]], "xs": xs})
+        for c, kind in ((2, "int"), (2, "float"), (2, "fraction"), (1, "bool"), (0, "bool"), (0, "int"), ("1/2", "float")):
+            out.append({"entry": "tree", "tree": ["castdivs", a, c, kind], "xs": xs})
+            for op in SCAL_L:
+                out.append({"entry": "tree", "tree": [op, a, c, kind], "xs": xs})
+            for op in SCAL_R:
+                out.append({"entry": "tree", "tree": [op, c, a, kind], "xs": xs})
+    out.extend(_fixed_objs())
     return out
 
 
@@ -396,6 +695,9 @@ def generate(rng, tier, scale=1):
     n_laws = (600 if quick else 9000) * scale
     n_eq = (700 if quick else 12000) * scale
     n_list = (400 if quick else 8000) * scale
+    n_nest = (900 if quick else 16000) * scale
+    n_eqm = (120 if quick else 2000) * scale
+    n_frac = (150 if quick else 2000) * scale
     depth = 3 if quick else 4
     cases = []
     if scale == 1:
@@ -428,6 +730,12 @@ def generate(rng, tier, scale=1):
         cases.append(_gen_eq(rng))
     for i in range(n_list):
         cases.append(_gen_list(rng, quick))
+    for i in range(n_nest):
+        cases.append(_gen_nest(rng, quick))
+    for i in range(n_eqm):
+        cases.append(_gen_eqm(rng))
+    for i in range(n_frac):
+        cases.append(_gen_frac(rng))
     return cases
 
 
@@ -484,11 +792,260 @@ def _build(t):
         return a(b)
     if op in SCAL_L:
         a, c = _build(t[1]), dec(t[2])
+        if len(t) > 3:
+            c = _number(t[2], t[3])
+            _BR.append("scalar spelled %s" % t[3])
         return {"adds": operator.add, "subs": operator.sub, "muls": operator.mul, "divs": operator.truediv}[op](a, c)
     if op in SCAL_R:
         c, a = dec(t[1]), _build(t[2])
+        if len(t) > 3:
+            c = _number(t[1], t[3])
+            _BR.append("scalar spelled %s (reflected)" % t[3])
         return {"radds": operator.add, "rsubs": operator.sub, "rmuls": operator.mul, "rdivs": operator.truediv}[op](c, a)
+    if op == "dom":
+        # the right operand is a LinearFilter that is not a ZFilter
+        from audiolazy import LinearFilter
+        a, b = _build(t[2]), LinearFilter(_build(t[3]))
+        _BR.append("domain: ZFilter %s LinearFilter" % t[1])
+        return {"add": operator.add, "sub": operator.sub, "mul": operator.mul, "div": operator.truediv}[t[1]](a, b)
+    if op == "rdom":
+        # a ZFilter handed to a reflected dunder
+        a, b = _build(t[2]), _build(t[3])
+        _BR.append("domain: reflected dunder with a ZFilter")
+        return getattr(a, {"add": "__radd__", "sub": "__rsub__", "mul": "__rmul__", "div": "__rtruediv__"}[t[1]])(b)
+    if op == "powk":
+        a = _build(t[1])
+        n = {"int": int, "bool": bool, "float": float, "fraction": F, "complex": complex}[t[3]](t[2])
+        _BR.append("pow: exponent spelled %s, %s" % (t[3], "general" if _len2(a) else "monomials"))
+        return a ** n
+    if op == "cast":
+        _BR.append("constructor: ZFilter(filter)")
+        return ZFilter(_build(t[1]))
+    if op == "lfcast":
+        from audiolazy import LinearFilter
+        _BR.append("constructor: LinearFilter(filter)")
+        return LinearFilter(_build(t[1]))
+    if op == "castdiv":
+        a, b = _build(t[1]), _build(t[2])
+        _BR.append("constructor: ZFilter(filter, filter)")
+        return ZFilter(a, b)
+    if op == "castdivs":
+        a = _build(t[1])
+        kind = t[3] if len(t) > 3 else "fraction"
+        _BR.append("constructor: ZFilter(filter, number spelled %s)" % kind)
+        return ZFilter(a, _number(t[2], kind))
     raise ValueError("bad tree op %r" % (op,))
+
+
+def _strip(t):
+    """the tree as the driver reads it: spellings of the scalars removed (the value is what the model sees)"""
+    if not isinstance(t, list) or not t or not isinstance(t[0], str):
+        return t
+    op = t[0]
+    if (op in SCAL_L or op in SCAL_R or op == "castdivs") and len(t) > 3:
+        t = t[:3]
+    if op in ("f", "fl", "s", "z", "n", "fn"):
+        return t
+    return [op] + [_strip(x) if (isinstance(x, list) and x and isinstance(x[0], str)) else
+                   ([_strip(y) for y in x] if isinstance(x, list) and op in ("new", "plain") else x) for x in t[1:]]
+
+
+def request(c):
+    r = dict(c)
+    for k in ("tree", "f", "g", "h", "p", "q", "obj"):
+        if k in r:
+            r[k] = _strip(r[k])
+    if "fs" in r:
+        r["fs"] = [_strip(t) for t in r["fs"]]
+    if "pool" in r:
+        r["pool"] = [_strip(t) for t in r["pool"]]
+    if r.get("entry") == "frac" and r.get("via") == "zpow":
+        r["num"] = [[enc(-dec(r["e"])), 1]]          # z ** e : the numerator {-e: 1}
+    return r
+
+
+# ----------------------------------------------------------------------------
+# filter list objects on the real code
+# ----------------------------------------------------------------------------
+_CLS = {}
+_FNS = {}
+
+
+def _cls(par, sub):
+    from audiolazy import CascadeFilter, ParallelFilter
+    key = (bool(par), int(sub))
+    if key not in _CLS:
+        if sub == 0:
+            _CLS[key] = ParallelFilter if par else CascadeFilter
+        else:
+            base = _cls(par, sub - 1)
+            _CLS[key] = type("My%s%d" % ("P" if par else "C", sub), (base,), {})
+    return _CLS[key]
+
+
+def _fn(i):
+    """callables that are not linear filters; identity i, behaviour i % 2 (the driver's envFn)"""
+    from audiolazy import Stream
+    if i not in _FNS:
+        if i % 2 == 0:
+            _FNS[i] = lambda seq, zero=0, **kw: Stream(seq).map(lambda v: v * v)
+        else:
+            _FNS[i] = lambda seq, zero=0, **kw: Stream(seq).map(lambda v: v + 1)
+    return _FNS[i]
+
+
+def _build_obj(t):
+    op = t[0]
+    if op == "zf":
+        return _build(t[1])
+    if op == "n":
+        c = dec(t[1])
+        return int(c) if c.denominator == 1 else c
+    if op == "fn":
+        return _fn(t[1])
+    if op == "plain":
+        items = [_build_obj(x) for x in t[2]]
+        return tuple(items) if t[1] else items
+    if op == "new":
+        cls = _cls(t[1], t[2])
+        parts = [_build_obj(x) for x in t[4]]
+        shape = t[3]
+        _BR.append("constructor: %s with %s" % (shape, "1 part" if len(parts) == 1 else ("no part" if not parts else "parts")))
+        if shape == "star":
+            return cls(*parts)
+        if shape == "list":
+            return cls(list(parts))
+        if shape == "tuple":
+            return cls(tuple(parts))
+        return cls(p for p in parts)
+    if op == "add":
+        return _build_obj(t[1]) + _build_obj(t[2])
+    if op == "mul":
+        return _build_obj(t[1]) * t[2]
+    if op == "rmul":
+        return t[1] * _build_obj(t[2])
+    if op == "imul":
+        a = _build_obj(t[1])
+        a *= t[2]
+        return a
+    if op == "append":
+        a = _build_obj(t[1])
+        a.append(_build_obj(t[2]))
+        return a
+    if op == "extend":
+        a, b = _build_obj(t[1]), _build_obj(t[2])
+        if len(t[2]) > 2 and t[2][0] == "plain" and t[2][1]:
+            a += b              # `+=` is list.__iadd__: any iterable
+        else:
+            a.extend(b)
+        return a
+    if op == "slice":
+        return _build_obj(t[1])[t[2]:t[3]]
+    raise ValueError("bad object op %r" % (op,))
+
+
+def _shape(o):
+    from audiolazy import CascadeFilter, ParallelFilter, LinearFilter
+    from audiolazy.lazy_filters import FilterList
+    if isinstance(o, FilterList):
+        par = isinstance(o, ParallelFilter)
+        base = ParallelFilter if par else CascadeFilter
+        return [par, type(o).__mro__.index(base), [_shape(x) for x in o]]
+    if isinstance(o, LinearFilter):
+        return "Z"
+    if isinstance(o, (list, tuple)):
+        return ["tuple" if isinstance(o, tuple) else "list", [_shape(x) for x in o]]
+    if callable(o):
+        for i, fn in _FNS.items():
+            if fn is o:
+                return ["F", i]
+        return ["F", -1]
+    return "N"
+
+
+def _hash_obs(o):
+    try:
+        return {"value": hash(o)}
+    except Exception as ex:
+        return {"err": err_kind(ex)}
+
+
+def _freq(o, ws):
+    out = []
+    for w in ws:
+        try:
+            v = complex(o.freq_response(w))
+            out.append([v.real, v.imag])
+        except Exception as ex:
+            out.append({"err": err_kind(ex)})
+    return out
+
+
+FREQS = [0.0, 0.3, 1.1, 2.5]
+
+
+def _impl_nest(c):
+    from audiolazy.lazy_filters import FilterList
+    del _BR[:]
+    try:
+        o = _build_obj(c["obj"])
+    except Exception as ex:
+        return {"err": err_kind(ex), "branches": list(_BR)}
+    res = {"shape": _shape(o), "branches": list(_BR), "hash": _hash_obs(o)}
+    try:
+        res["len"] = len(o)
+    except Exception:
+        res["len"] = None
+    if isinstance(o, FilterList):
+        def poly(name):
+            try:
+                p = getattr(o, name)
+                return {"terms": _terms(p), "float": _has_float(p)}
+            except Exception as ex:
+                return {"err": err_kind(ex)}
+        res["numpoly"], res["denpoly"] = poly("numpoly"), poly("denpoly")
+        if ("err" in res["numpoly"]) != ("err" in res["denpoly"]):
+            # `zf + filter_list` is `zf + ZFilter([filter_list])`: when no coefficient arithmetic happens to fail, the "sum"
+            # is a filter with a filter list as a coefficient; such a pair is observed as the TypeError it stands for
+            bad = res["numpoly"] if "err" in res["numpoly"] else res["denpoly"]
+            res["numpoly"] = res["denpoly"] = {"err": bad["err"], "garbage": True}
+        res["out"] = _out(o, c.get("xs", []))
+        try:
+            res["linear"] = bool(o.is_linear())
+        except Exception as ex:
+            res["linear"] = {"err": err_kind(ex)}
+        res["freq"] = _freq(o, FREQS) if "err" not in res["numpoly"] else None
+    return res
+
+
+def _impl_eqm(c):
+    objs = [_build_obj(t) for t in c["pool"]]
+    eq, ne, bools = [], [], True
+    for a in objs:
+        re_, rn = [], []
+        for b in objs:
+            x, y = (a == b), (a != b)
+            bools = bools and isinstance(x, bool) and isinstance(y, bool)
+            re_.append(bool(x))
+            rn.append(bool(y))
+        eq.append(re_)
+        ne.append(rn)
+    return {"eq": eq, "ne": ne, "bools": bools, "hash": [_hash_obs(o) for o in objs], "shape": [_shape(o) for o in objs]}
+
+
+def _impl_frac(c):
+    from audiolazy import ZFilter, z
+    via = c.get("via", "dict")
+    if via == "zpow":
+        f = z ** float(dec(c["e"]))
+    else:
+        key = (lambda k: dec(k)) if via == "fraction-keys" else \
+              (lambda k: int(dec(k)) if dec(k).denominator == 1 else float(dec(k)))
+        f = ZFilter(OrderedDict((key(k), dec(v)) for k, v in c["num"]), OrderedDict((key(k), dec(v)) for k, v in c["den"]))
+    before = {"num": [[enc(k), enc(v)] for k, v in f.numpoly.terms()], "den": [[enc(k), enc(v)] for k, v in f.denpoly.terms()]}
+    g = f.linearize()
+    return {"before": before, "num": _terms(g.numpoly), "den": _terms(g.denpoly),
+            "int_keys": all(isinstance(k, int) for p in (g.numpoly, g.denpoly) for k, _ in p.terms())}
 
 
 def _terms(p):
@@ -652,6 +1209,18 @@ def impl(c):
                 pass
         return {"numpoly": poly("numpoly"), "denpoly": poly("denpoly"), "shortcut": shortcut,
                 "out": _out(filt, c.get("xs", [])), "amp": amp}
+    if e == "nest":
+        return _impl_nest(c)
+    if e == "eqm":
+        try:
+            return _impl_eqm(c)
+        except Exception as ex:
+            return {"err": err_kind(ex)}
+    if e == "frac":
+        try:
+            return _impl_frac(c)
+        except Exception as ex:
+            return {"err": err_kind(ex)}
     raise ValueError("unknown entry " + e)
 
 
@@ -819,7 +1388,149 @@ def compare(c, io, drv):
                 out.append(("spec", "%s output is not the %s of the parts' outputs: %s" % (
                     c["kind"], "composition" if c["kind"] == "cascade" else "sum", d)))
         return out
+    if e == "nest":
+        return _cmp_nest(c, io, m)
+    if e == "eqm":
+        return _cmp_eqm(c, io, m)
+    if e == "frac":
+        return _cmp_frac(c, io, m, s)
     return [("model", "unknown entry")]
+
+
+def _polys_match(io, shape, tol):
+    """impl (numpoly, denpoly) observation against one model shape ({"num","den"} | {"err"} | None)"""
+    if shape is None:
+        return False
+    errs = [p["err"] for p in (io["numpoly"], io["denpoly"]) if "err" in p]
+    if "err" in shape:
+        return len(errs) == 2 and errs[0] == shape["err"] and errs[1] == shape["err"]
+    if errs:
+        return False
+    return cross_equal(terms_to_dict(io["numpoly"]["terms"]), terms_to_dict(io["denpoly"]["terms"]),
+                       terms_to_dict(shape["num"]), terms_to_dict(shape["den"]), tol)
+
+
+def _eval_poly(p, w):
+    import cmath
+    x = cmath.exp(-1j * w)
+    return sum(complex(float(v)) * x ** k for k, v in p.items())
+
+
+def _cmp_nest(c, io, m):
+    out = []
+    if "err" in io:
+        if not (isinstance(m, dict) and m.get("err") == io["err"]):
+            out.append(("model", "building the object: impl raised %s, model gives %s" % (io["err"], json.dumps(m)[:160])))
+        return out
+    if "err" in m:
+        return [("model", "model predicts %s building the object, impl returned %s" % (m["err"], json.dumps(io["shape"])[:160]))]
+    if io["shape"] != m["shape"]:
+        out.append(("model", "structure (classes, parts): impl=%s model=%s" % (json.dumps(io["shape"])[:200], json.dumps(m["shape"])[:200])))
+    if io.get("len") != m.get("len"):
+        out.append(("model", "len: impl=%r model=%r" % (io.get("len"), m.get("len"))))
+    if ("err" in io["hash"]) != ("err" in m["hash"]) or ("err" in io["hash"] and io["hash"]["err"] != m["hash"]["err"]):
+        out.append(("model", "hash: impl=%s model=%s" % (json.dumps(io["hash"])[:80], json.dumps(m["hash"])[:80])))
+    if "out" not in io:
+        return out                                  # a plain list / tuple: structure only
+    if io["linear"] != m["linear"]:
+        out.append(("model", "is_linear: impl=%r model=%r" % (io["linear"], m["linear"])))
+    d = _cmp_out(io["out"], m["out"], 0, 1.0)
+    if d:
+        out.append(("model", "call: " + d))
+    if m["spec_out"] is not None:
+        d = _cmp_out(io["out"], m["spec_out"], 0, 1.0)
+        if d:
+            out.append(("spec", "the output is not the composition / sum of the parts' outputs: " + d))
+    flt = any(p.get("float") for p in (io["numpoly"], io["denpoly"]))
+    tol = 1e-9 if flt else 0
+    # two code shapes are accepted: as coded (reduce(operator.add, self) on the raw elements) and the repair of D22
+    if not (_polys_match(io, m["polys_coded"], tol) or _polys_match(io, m["polys_fixed"], tol)) \
+            and not _garbage_possible(c["obj"]):
+        out.append(("model", "numpoly/denpoly: impl=%s / %s model(as coded)=%s model(repaired)=%s" % (
+            json.dumps(io["numpoly"])[:120], json.dumps(io["denpoly"])[:120], json.dumps(m["polys_coded"])[:160],
+            json.dumps(m["polys_fixed"])[:160])))
+    sp = m.get("spec")
+    if sp is not None and "err" not in m["polys_fixed"]:
+        kind = "parallel" if c["obj"][0] == "new" and c["obj"][1] else "filter list"
+        if "err" in io["numpoly"] or "err" in io["denpoly"]:
+            out.append(("spec", "numpoly/denpoly of a %s of linear parts raises %s where the product / sum of the parts is %s / %s" % (
+                kind, io["numpoly"].get("err") or io["denpoly"].get("err"), json.dumps(sp["num"])[:100], json.dumps(sp["den"])[:100])))
+        else:
+            ni, di = terms_to_dict(io["numpoly"]["terms"]), terms_to_dict(io["denpoly"]["terms"])
+            if not cross_equal(ni, di, terms_to_dict(sp["num"]), terms_to_dict(sp["den"]), tol):
+                out.append(("spec", "numpoly/denpoly = %s / %s is not the product / sum of the parts %s / %s" % (
+                    json.dumps(io["numpoly"]["terms"])[:100], json.dumps(io["denpoly"]["terms"])[:100],
+                    json.dumps(sp["num"])[:100], json.dumps(sp["den"])[:100])))
+            elif io.get("freq"):
+                # float-only observable (class g): freq_response is the product / sum of the parts' responses, i.e. the
+                # denoted rational function on the unit circle (justified by nested_structure_denotes)
+                ns, ds = terms_to_dict(sp["num"]), terms_to_dict(sp["den"])
+                for w, v in zip(FREQS, io["freq"]):
+                    if isinstance(v, dict):
+                        continue
+                    den = _eval_poly(ds, w)
+                    if abs(den) < 1e-6:
+                        continue
+                    want = _eval_poly(ns, w) / den
+                    got = complex(v[0], v[1])
+                    if abs(got - want) > 1e-7 * (1 + abs(want)) / min(1.0, abs(den)):
+                        out.append(("spec", "freq_response(%r) = %r is not the product / sum of the parts' responses %r" % (w, got, want)))
+                        break
+    return out
+
+
+def _cmp_eqm(c, io, m):
+    out = []
+    if "err" in io:
+        if isinstance(m, dict) and m.get("err") == io["err"]:
+            return []
+        return [("model", "building the pool: impl raised %s, model %s" % (io["err"], json.dumps(m)[:100]))]
+    if "err" in m:
+        return [("model", "model predicts %s building the pool" % m["err"])]
+    n = len(c["pool"])
+    if not io["bools"]:
+        out.append(("spec", "== / != returned something that is not a bool"))
+    for i in range(n):
+        hi, hm = io["hash"][i], m["hash"][i]
+        if ("err" in hi) != ("err" in hm) or ("err" in hi and hi["err"] != hm["err"]):
+            out.append(("model", "hash of object %d (%s): impl=%s model=%s" % (i, json.dumps(io["shape"][i])[:60], json.dumps(hi)[:60],
+                                                                                json.dumps(hm)[:60])))
+        for j in range(n):
+            e, ne = io["eq"][i][j], io["ne"][i][j]
+            who = "objects %d, %d (%s vs %s)" % (i, j, json.dumps(io["shape"][i])[:70], json.dumps(io["shape"][j])[:70])
+            if e != m["eq"][i][j] or ne != m["ne"][i][j]:
+                out.append(("model", "%s: impl ==/!= %r/%r model %r/%r" % (who, e, ne, m["eq"][i][j], m["ne"][i][j])))
+            if e == ne:
+                out.append(("spec", "%s: a == b is %r and a != b is %r: not exactly one of them holds" % (who, e, ne)))
+            if e and "value" in io["hash"][i] and "value" in io["hash"][j] and io["hash"][i]["value"] != io["hash"][j]["value"]:
+                out.append(("spec", "%s: equal but the hashes differ" % who))
+            if e and ("err" in io["hash"][i]) != ("err" in io["hash"][j]):
+                out.append(("spec", "%s: equal but only one of them is hashable" % who))
+    return out[:12]
+
+
+def _cmp_frac(c, io, m, s):
+    if "err" in io:
+        if isinstance(m, dict) and m.get("err") == io["err"]:
+            return []
+        return [("model", "linearize: impl raised %s, model %s" % (io["err"], json.dumps(m)[:100]))]
+    if "err" in m:
+        return [("model", "linearize: model predicts %s" % m["err"])]
+    out = []
+    ni, di = terms_to_dict(io["num"]), terms_to_dict(io["den"])
+    nm, dm = terms_to_dict(m["num"]), terms_to_dict(m["den"])
+    drop = lambda d: {k: v for k, v in d.items() if v != 0}
+    if drop(ni) != drop(nm) or drop(di) != drop(dm):
+        out.append(("model", "linearize: impl=%s / %s model=%s / %s" % (json.dumps(io["num"])[:120], json.dumps(io["den"])[:120],
+                                                                        json.dumps(m["num"])[:120], json.dumps(m["den"])[:120])))
+    if not io["int_keys"]:
+        out.append(("spec", "linearize() left a fractional delay"))
+    if c.get("via") != "zpow" and s is not None:
+        # the two weights of a term add up to one: the gain at z = 1 is kept (linPairs_sum); the constructor may have
+        # shifted both polynomials by a common delay, which does not change the sums either
+        if sum(ni.values()) != dec(s["sum_num"]) or sum(di.values()) != dec(s["sum_den"]):
+            out.append(("spec", "linearize() changed the sum of the coefficients: %s / %s" % (json.dumps(io["num"])[:100], json.dumps(io["den"])[:100])))
+    return out
 
 
 def nontrivial(c, io):
@@ -874,11 +1585,145 @@ def tally(eng, c, io):
             eng.count("eq_drawn", c.get("kind", "?"))
             eng.count("eq_outcome", "eq=%r ne=%r num_equal=%r den_equal=%r hash_equal=%r" % (
                 io["eq"], io["ne"], io["num_equal"], io["den_equal"], io["hash_equal"]))
+    elif e == "nest":
+        for b in io.get("branches", []):
+            eng.count("code_branch", b)
+        for k in _obj_stats(c["obj"]):
+            eng.count("nest_" + k[0], k[1])
+        if "err" in io:
+            eng.count("nest_result", "raises " + io["err"])
+        else:
+            eng.count("nest_result", "plain %s" % io["shape"][0] if "out" not in io else "filter list")
+            if "out" in io:
+                eng.count("nest_polys", io["numpoly"].get("err", "polynomials"))
+                eng.count("nest_call", io["out"].get("err", "samples"))
+                eng.count("nest_linear", str(io["linear"]))
+    elif e == "eqm":
+        if "eq" in io:
+            n = len(c["pool"])
+            for i in range(n):
+                for j in range(n):
+                    if i != j:
+                        eng.count("eqm_pair", "%s vs %s: eq=%r ne=%r" % (_sort_of(io["shape"][i]), _sort_of(io["shape"][j]),
+                                                                         io["eq"][i][j], io["ne"][i][j]))
+            for h in io["hash"]:
+                eng.count("eqm_hash", h.get("err", "hashable"))
+    elif e == "frac":
+        eng.count("frac_via", c.get("via", "dict"))
+        if "err" in io:
+            eng.count("frac_result", "raises " + io["err"])
+        else:
+            ks = [dec(k) for k, _ in io["before"]["num"]] + [dec(k) for k, _ in io["before"]["den"]]
+            eng.count("frac_keys", "negative fractional" if any(k < 0 and k.denominator > 1 for k in ks) else
+                      ("fractional" if any(k.denominator > 1 for k in ks) else "integer only"))
     elif e == "list":
         eng.count("list_kind", "%s of %d" % (c["kind"], len(c["fs"])))
         if "err" not in io:
             eng.count("list_polys", io["numpoly"].get("err", "polynomials") + (", shortcut" if io["shortcut"] else ""))
             eng.count("list_call", io["out"].get("err", "samples"))
+
+
+def _sort_of(sh):
+    if sh == "Z":
+        return "filter"
+    if sh == "N":
+        return "number"
+    if isinstance(sh, list) and sh and sh[0] == "F":
+        return "function"
+    if isinstance(sh, list) and sh and isinstance(sh[0], str):
+        return sh[0]
+    if isinstance(sh, list) and sh:
+        return ("parallel" if sh[0] else "cascade") + ("(subclass)" if sh[1] else "")
+    return "?"
+
+
+def _obj_children(t):
+    op = t[0]
+    if op == "new":
+        return list(t[4])
+    if op == "plain":
+        return list(t[2])
+    if op in ("zf", "n", "fn"):
+        return []
+    return [x for x in t[1:] if isinstance(x, list)]
+
+
+def _obj_stats(t, depth=0, acc=None, parent=None):
+    acc = [] if acc is None else acc
+    op = t[0]
+    if op == "new":
+        acc.append(("node", "%s sub=%d %s of %d" % ("parallel" if t[1] else "cascade", t[2], t[3], len(t[4]))))
+        if parent is not None:
+            acc.append(("nesting", "%s in %s" % ("parallel" if t[1] else "cascade", parent)))
+        if len(t[4]) == 1 and t[4][0][0] in _FL_CHILD | {"slice", "plain"}:
+            acc.append(("lone_arg", "%s(%s %s)" % ("parallel" if t[1] else "cascade", t[3], t[4][0][0] if t[4][0][0] != "new" else
+                                                    ("parallel" if t[4][0][1] else "cascade"))))
+        for x in t[4]:
+            _obj_stats(x, depth + 1, acc, "parallel" if t[1] else "cascade")
+    else:
+        if op not in ("zf",):
+            acc.append(("op", op))
+        for x in _obj_children(t):
+            _obj_stats(x, depth + 1, acc, parent)
+    if parent is None:
+        acc.append(("depth", _obj_depth(t)))
+    return acc
+
+
+def _obj_depth(t):
+    return (1 if t[0] == "new" else 0) + max([_obj_depth(x) for x in _obj_children(t)] + [0])
+
+
+def _par_holds_list(t):
+    """a parallel node is in play (ParallelFilter.numpoly / denpoly run `reduce(operator.add, self)` on the raw elements:
+    filter lists are concatenated, numbers stay numbers); the parts themselves are compared through the two models"""
+    if t[0] == "new" and t[1]:
+        return True
+    return any(_par_holds_list(x) for x in _obj_children(t))
+
+
+def _garbage_possible(t):
+    """a parallel node holding both a filter list and a ZFilter / number directly: as coded `zf + filter_list` is
+    `zf + ZFilter([filter_list])`, which raises TypeError only if some coefficient arithmetic is attempted; otherwise a
+    filter list sits in the polynomial as a coefficient and may even vanish again in a product with a zero polynomial.
+    The as-coded model says TypeError; such structures are compared with the repaired shape and the spec only."""
+    if t[0] == "new" and t[1]:
+        kinds = {("list" if x[0] in _FL_CHILD else "leaf") for x in t[4] if x[0] != "fn"}
+        if len(kinds) == 2:
+            return True
+    return any(_garbage_possible(x) for x in _obj_children(t))
+
+
+def _shrink_obj(t):
+    for x in _obj_children(t):
+        if x[0] in _FL_CHILD | {"slice", "plain"}:
+            yield x
+    op = t[0]
+    if op == "new":
+        parts = t[4]
+        for i in range(len(parts)):
+            yield t[:4] + [parts[:i] + parts[i + 1:]]
+        if t[2] > 0:
+            yield t[:2] + [0] + t[3:]
+        if t[3] != "star":
+            yield t[:3] + ["star"] + t[4:]
+        for i, x in enumerate(parts):
+            if x[0] == "zf":
+                for j, t2 in enumerate(_shrink_tree(x[1])):
+                    if j > 12:
+                        break
+                    yield t[:4] + [parts[:i] + [["zf", t2]] + parts[i + 1:]]
+            else:
+                for x2 in _shrink_obj(x):
+                    yield t[:4] + [parts[:i] + [x2] + parts[i + 1:]]
+    elif op == "plain":
+        for i in range(len(t[2])):
+            yield t[:2] + [t[2][:i] + t[2][i + 1:]]
+    elif op not in ("zf", "n", "fn"):
+        for i in range(1, len(t)):
+            if isinstance(t[i], list):
+                for x2 in _shrink_obj(t[i]):
+                    yield t[:i] + [x2] + t[i + 1:]
 
 
 # ----------------------------------------------------------------------------
@@ -940,11 +1785,14 @@ def _sig_class(c):
         return (io["eq"], io["ne"], io["num_equal"], io["den_equal"])
     if c["entry"] == "list":
         return (io["shortcut"], "err" in io["numpoly"], "err" in io["denpoly"], "err" in io["out"])
+    if c["entry"] == "nest":
+        return (_par_holds_list(c["obj"]), _garbage_possible(c["obj"]), io.get("numpoly", {}).get("err"),
+                io.get("out", {}).get("err"))
     return ()
 
 
 def shrink(c):
-    if c["entry"] in ("eq", "list"):
+    if c["entry"] in ("eq", "list", "nest"):
         base = _sig_class(c)
         for cand in _shrink(c):
             if _sig_class(cand) == base:
@@ -978,6 +1826,23 @@ def _shrink(c):
                 yield dict(c, c=2)
             for x in _shrink_xs(c):
                 yield x
+    elif e == "nest":
+        for i, t in enumerate(_shrink_obj(c["obj"])):
+            if i > 200:
+                break
+            yield dict(c, obj=t)
+        for x in _shrink_xs(c):
+            yield x
+    elif e == "eqm":
+        pool = c["pool"]
+        if len(pool) > 2:
+            for i in range(len(pool)):
+                yield dict(c, pool=pool[:i] + pool[i + 1:])
+    elif e == "frac":
+        for k in ("num", "den"):
+            if len(c[k]) > (0 if k == "num" else 1):
+                for i in range(len(c[k])):
+                    yield dict(c, **{k: c[k][:i] + c[k][i + 1:]})
     elif e == "list":
         fs = c["fs"]
         if len(fs) > 2:        # two equal-denominator parts is the known D12 shape: never shrink below two
@@ -1018,6 +1883,24 @@ def neighbours(c):
         for i in range(len(fs)):
             yield dict(c, fs=fs[:i] + fs[i + 1:])
         yield dict(c, kind="cascade" if c["kind"] == "parallel" else "parallel")
+    elif e == "nest":
+        t = c["obj"]
+        for x in _obj_children(t):
+            if x[0] in _FL_CHILD:
+                yield dict(c, obj=x)
+        if t[0] == "new":
+            yield dict(c, obj=[t[0], not t[1]] + t[2:])
+            for shape in ("star", "list", "tuple", "gen"):
+                yield dict(c, obj=t[:3] + [shape] + t[4:])
+            yield dict(c, obj=["new", False, 0, "star", [t]])
+            yield dict(c, obj=["new", True, 0, "star", [t]])
+        yield dict(c, xs=[1, 0, 0, 0, 0])
+    elif e == "eqm":
+        pool = c["pool"]
+        for i in range(len(pool)):
+            for j in range(len(pool)):
+                if i != j:
+                    yield dict(c, pool=[pool[i], pool[j]])
 
 
 def classify(c, io, drv):
@@ -1044,6 +1927,27 @@ def classify(c, io, drv):
                 return "list:parallel:numpoly/denpoly is not the sum:denpoly is the product of all denominators " \
                        "while numpoly comes from a sum that took the same-denominator shortcut"
         return "list:%s:polys" % c["kind"]
+    if e == "nest":
+        if "err" in io:
+            return "nest:building raises:%s" % io["err"]
+        if "out" not in io:
+            return "nest:plain list"
+        sp = m.get("spec_out")
+        if sp is not None and _cmp_out(io["out"], sp, 0, 1.0):
+            return "nest:output"
+        coded, fixed = m.get("polys_coded"), m.get("polys_fixed")
+        flt = any(p.get("float") for p in (io["numpoly"], io["denpoly"]))
+        if _par_holds_list(c["obj"]) and coded is not None and fixed is not None and "err" not in fixed \
+                and (_polys_match(io, coded, 1e-9 if flt else 0) or _garbage_possible(c["obj"])) \
+                and not _polys_match(io, fixed, 1e-9 if flt else 0):
+            return "nest:parallel holding a part that is not a ZFilter:numpoly/denpoly is not the sum of the parts:" \
+                   "reduce(operator.add, self) adds the raw elements (filter lists are concatenated, numbers stay numbers) " \
+                   "instead of the parts as filters"
+        return "nest:polys"
+    if e == "eqm":
+        return "eqm:" + ("raises:" + io["err"] if "err" in io else "comparison")
+    if e == "frac":
+        return "frac:" + ("raises:" + io["err"] if "err" in io else "linearize")
     if e == "tree":
         what = ("raises:" + io["err"]) if "err" in io else "value"
         return "tree:%s:%s" % (c["tree"][0], what)
